@@ -531,6 +531,8 @@ class Command:
                     self.nextargpos = pos + 1
                 if add:
                     self.arguments[curarg["name"]] = avalue
+                    # forget the value given to a previous tag of this slot
+                    self.extra_arguments.pop(curarg["name"], None)
                 break
 
             pos += 1
